@@ -94,6 +94,21 @@ pub fn main_helpers(args: &[String]) -> i32 {
                         let p1 = Plane::new(v3(&c["n1"]), pt(&c["p1"]));
                         let p2 = Plane::new(v3(&c["n2"]) / lam, pt(&c["p2"]));
                         let r = intersect_planes(&p0, &p1, &p2);
+                        // a plane is its PUBLIC fields n and p: one that was built elsewhere and then moved (fields assigned)
+                        // must give the same answers as one built in place
+                        let mut q0 = Plane::new(v3(&c["n1"]), pt(&c["p2"]));
+                        q0.n = p0.n;
+                        q0.p = p0.p;
+                        let mut q2 = Plane::new(v3(&c["n0"]) * 3.0, pt(&c["p1"]) + DVec3::splat(h));
+                        q2.p = p2.p;
+                        q2.n = p2.n;
+                        let rm = intersect_planes(&q0, &p1, &q2);
+                        errs.push(("three-plane intersection of planes whose public fields were assigned after construction differs".into(), (rm - r).length()));
+                        let pm = q0.project_onto_intersection(&q2, pt(&c["p1"]));
+                        let pf = p0.project_onto_intersection(&p2, pt(&c["p1"]));
+                        errs.push(("projection onto the intersection of planes whose public fields were assigned after construction differs".into(), (pm - pf).length()));
+                        errs.push(("projection onto a plane whose public fields were assigned after construction differs".into(),
+                                   (q0.project_onto(pt(&c["p2"])) - p0.project_onto(pt(&c["p2"]))).length()));
                         errs.push(("three-plane intersection differs from the closed form".into(), (r - ept(&e["pt"])).length()));
                         for (k, p) in [&p0, &p1, &p2].iter().enumerate() {
                             errs.push((format!("three-plane intersection is not on plane {}", k), (r - p.p).dot(p.n.normalize()).abs()));
